@@ -5,7 +5,7 @@ import os, re, subprocess, sys
 ROOT = os.path.dirname(os.path.dirname(os.path.abspath(__file__)))
 COQ = os.path.join(ROOT, 'coq')
 out, imports, lemmas = sys.argv[1], sys.argv[2], sys.argv[3:]
-hdr = 'From Coq Require Import Reals.\nFrom Coquelicot Require Import Coquelicot.\nFrom EP Require Import lib.Base lib.Euler lib.RH %s.\nOpen Scope R_scope.\n' % imports
+hdr = 'From Coq Require Import Reals.\nFrom Coquelicot Require Import Coquelicot.\nFrom EP Require Import lib.Base lib.Euler lib.RH lib.Euclid %s.\nOpen Scope R_scope.\n' % imports
 tmp = os.path.join(COQ, 'tmp_check.v')
 body = hdr + 'Set Printing Width 110.\nSet Printing Depth 100000.\n' + ''.join('Check %s.\n' % l for l in lemmas)
 open(tmp, 'w').write(body)
